@@ -11,13 +11,19 @@
  *
  * Memory safety of the parsers on arbitrary bytes is C04's subject (units/C04); here every input object has EXACTLY the
  * length of the text, so an over-read still shows up as a failed bounds obligation. */
+#ifdef C19_HYBRID
+#include "contracts/date_time.h"
+#else
 #include "contracts/common.h"
+#endif
 #include <math.h>
 #include <stdlib.h>
 #include <time.h>
 
 /* ---- environment: error slot (ghost view, same meaning as contracts/common.h), fatal assert ---- */
+#ifndef C19_HYBRID
 void aws_raise_error_private(int err) { g_last_error = err; g_raise_count++; }
+#endif
 void aws_fatal_assert(const char *cond_str, const char *file, int line) {
     (void)cond_str; (void)file; (void)line;
     __CPROVER_assert(0, "aws_fatal_assert reachable");
@@ -207,6 +213,7 @@ static void gen_iso(void) {
 #endif
         __CPROVER_assume(nfrac >= 1 && nfrac <= MAXFRAC);
         for (size_t i = 0; i < nfrac; ++i) put_digit();
+        g_j = nfrac + 1; /* witness position handed to the helper contracts: the byte behind the fraction */
     }
     if (GEN_ZONE_Z) {
         put(nondet_bool() ? 'Z' : 'z');
